@@ -270,7 +270,7 @@ func c01Check(c *mon.Ctx, a *apiValue, label string) {
 		}
 	}
 	// a share of the values also goes through real files and a buffered reader
-	if len(b)%5 == 0 && c.Dir != "" {
+	if (len(b)%5 == 0 || len(b) > 4200) && c.Dir != "" {
 		path := filepath.Join(c.Dir, fmt.Sprintf("c01-%d.mid", c.Shard))
 		var werr error
 		if !c.Guard("panic:WriteFile", in, func() { werr = a.s.WriteFile(path) }) {
@@ -280,6 +280,15 @@ func c01Check(c *mon.Ctx, a *apiValue, label string) {
 				for k, rf := range []func() (*smf.SMF, error){
 					func() (*smf.SMF, error) { return smf.ReadFile(path) },
 					func() (*smf.SMF, error) { return smf.ReadFrom(bufio.NewReaderSize(bytes.NewReader(b), 16+len(b)%300)) },
+					func() (*smf.SMF, error) { // a pipe: an *os.File that cannot seek
+						pr, pw, e := os.Pipe()
+						if e != nil {
+							return nil, e
+						}
+						go func() { pw.Write(b); pw.Close() }()
+						defer pr.Close()
+						return smf.ReadFrom(pr)
+					},
 				} {
 					var s4 *smf.SMF
 					var err error
@@ -288,7 +297,7 @@ func c01Check(c *mon.Ctx, a *apiValue, label string) {
 					}
 					c.Count("file_roundtrips", 1)
 					if err != nil {
-						c.Violation("readfile-error", fmt.Sprintf("reading the written file back (source %d: 0 = ReadFile, 1 = bufio) fails: %v", k, err), in, nil, err.Error())
+						c.Violation("readfile-error", fmt.Sprintf("reading the written file back (source %d: 0 = ReadFile, 1 = bufio, 2 = os.Pipe) fails: %v", k, err), in, nil, err.Error())
 					} else if diff := ref.EqualFiles(a.sh, fromLib(s4)); diff != "" {
 						c.Violation("roundtrip-file", "round trip through a real file / buffered reader changed the content: "+diff, in, nil, nil)
 					}
